@@ -63,6 +63,7 @@ func runC01(c *Ctx) {
 	c.r0115(pk)
 	c.r0116(pk)
 	c.r0117(pk)
+	c.r0118(pk)
 }
 
 // R01.13: traversals of binding patterns reach every nested binding.
@@ -1817,6 +1818,12 @@ func init() {
 	mutant(&Mutant{Name: "c01-cond-branches-clear-infor", Property: "C01", File: "js/js.go",
 		Old: "\t\tm.write(questionBytes)\n\t\tm.minifyExpr(expr.X, js.OpAssign)\n\t\tm.write(colonBytes)\n\t\tm.minifyExpr(expr.Y, js.OpAssign)\n", New: "\t\tm.write(questionBytes)\n\t\tparentInFor := m.inFor\n\t\tm.inFor = false\n\t\tm.minifyExpr(expr.X, js.OpAssign)\n\t\tm.write(colonBytes)\n\t\tm.minifyExpr(expr.Y, js.OpAssign)\n\t\tm.inFor = parentInFor\n",
 		Rule: "R01.16", Construct: "minifyExpr/cleared region"})
+	mutant(&Mutant{Name: "c01-equal-expr-accepts-member-chains", Property: "C01", File: "js/util.go",
+		Old: "\t\t\treturn bytes.Equal(left.Name(), right.Name())\n\t\t}\n\t}\n", New: "\t\t\treturn bytes.Equal(left.Name(), right.Name())\n\t\t}\n\t} else if left, ok := a.(*js.DotExpr); ok {\n\t\tif right, ok := b.(*js.DotExpr); ok {\n\t\t\treturn bytes.Equal(left.Y.Data, right.Y.Data) && isEqualExpr(left.X, right.X)\n\t\t}\n\t}\n",
+		Rule: "R01.17", Construct: "isEqualExpr"})
+	mutant(&Mutant{Name: "c01-assignment-to-parameter-becomes-var", Property: "C01", File: "js/vars.go",
+		Old: "\t\tif v, ok := binaryExpr.X.(*js.Var); ok && v.Decl == js.VariableDecl {\n\t\t\taddDefinition(decl, v, binaryExpr.Y, forward)\n\t\t\treturn true", New: "\t\tif v, ok := binaryExpr.X.(*js.Var); ok && (v.Decl == js.VariableDecl || v.Decl == js.ArgumentDecl) {\n\t\t\taddDefinition(decl, v, binaryExpr.Y, forward)\n\t\t\treturn true",
+		Rule: "R01.18", Construct: "becomes a declaration"})
 	mutant(&Mutant{Name: "c01-laststmt-looks-through-labels", Property: "C01", File: "js/util.go",
 		Old: "\t\treturn lastStmt(block.List[len(block.List)-1])\n\t}\n", New: "\t\treturn lastStmt(block.List[len(block.List)-1])\n\t} else if labelled, ok := stmt.(*js.LabelledStmt); ok {\n\t\treturn lastStmt(labelled.Value)\n\t}\n",
 		Rule: "R01.17", Construct: "lastStmt"})
